@@ -144,8 +144,16 @@ CHECKS = {
         'Shafranov / Czarny formulas are too large for field). Culham: nothing closed-form to check. Finding F11 (three Poisson x Czarny source terms are wrong) is recorded as known.',
    note='Trusted: Coq kernel, real-number axioms + classic (Coquelicot) + primitive floats/ints (Interval, one lemma), translator T7 (validated pointwise against the compiled classes on every run).',
    design='5/C19'),
+ 'C11': dict(
+   technique='Coq proof of race freedom of six work-sharing regions regenerated from the sources (translator T2: loop bounds, strides, nowait, bodies, private scratch) for every grid size, with a concurrency relation that over-approximates every thread count and schedule + K-footprint validation of the task footprints by perturbation + model search and stress replay as failing-input search',
+   text='PARTIAL. Proved for all nr, ntheta, numberSmootherCircles (ntheta even for the smoothers): in ResidualGive/Take::computeResidual, SmootherGive::smoothingForLoop, SmootherTake::smoothing and the two extrapolated smoothers no two '
+        'iterations that can overlap (same omp for, or loops separated only by nowait) touch the same element of x, rhs, temp, the result vector, a line-solver object or the solver scratch unless both only read it. '
+        'Finding F12 (race for ntheta % 4 == 2, found while stating the theorem) is repaired by a fix: commit. Not covered: matrix assembly of the direct solver and the smoothers, transfer operators, level caches, '
+        'rhs build, vector kernels, whole setup()+solve(); the OpenMP runtime itself (barriers) is assumed.',
+   note='Trusted: Coq kernel (axiom-free theorems), translator T2, hand-written footprints validated by K-footprint on every run, the over-approximating concurrency model.',
+   design='5/C11'),
 }
-NA_REASON = 'check not built yet in this revision of /verif (design in DESIGN.md section 5); not claimed'
+NA_REASON = 'check not built in this revision of /verif (design in DESIGN.md section 5/C12; the race-freedom theorems of C11 are its foundation); not claimed'
 
 def main():
     checks = []
